@@ -291,9 +291,9 @@ impl Ext {
 
 // ------------------------------------------------------------------ function bodies
 
-pub const TEMPLATES: [&str; 23] = [
+pub const TEMPLATES: [&str; 24] = [
     "straight", "loop", "diamond", "heap", "heap_checked", "fmt", "sys", "tail_extern", "noret", "internal", "indirect", "dangling",
-    "entry_not_first", "empty", "ram", "subreg", "null", "callother", "stack", "prng", "toctou", "unchecked", "scanf",
+    "entry_not_first", "entry_missing", "empty", "ram", "subreg", "null", "callother", "stack", "prng", "toctou", "unchecked", "scanf",
 ];
 
 use pc::ExpressionType as E;
@@ -726,6 +726,14 @@ pub fn body(t: &str, a: &Arch, l: Layout, fi: usize, ext: &Ext) -> Vec<Term<pc::
             f.begin(0);
             f.mov(f.s(0), f.p(0));
             f.goto(1);
+            f.begin(2);
+            f.ret();
+        }
+        "entry_missing" => {
+            // Ghidra found a function start inside another function's block: no block starts at the function address
+            f.begin(1);
+            f.mov(f.ret_reg(), f.p(0));
+            f.goto(2);
             f.begin(2);
             f.ret();
         }
